@@ -167,6 +167,8 @@ def _lod_plan(draw, max_rows):
 @st.composite
 def _with_history(draw, base):
     plan = draw(base)
+    if plan["obj"] == "frame" and draw(st.integers(0, 3)) == 0:
+        plan["prior_read"] = True
     if draw(st.integers(0, 4)) == 0:
         plan["failed_first"] = draw(st.sampled_from(["json_ascii", "json_inf", "csv_ascii", "lod_csv_ascii", "directory"]))
     return plan
@@ -288,6 +290,17 @@ def check(plan, ctx):
             small.write_json(ctx.path("prior.json"), encoding=pr["encoding"], indent=pr["indent"])
         ctx.cls("after_a_prior_write")
     _failed_write_first(plan, ctx)
+    if plan.get("prior_read"):
+        # history: a file whose columns have the same names but hold text was written and read (all defaults) earlier in
+        # this process; nothing learnt about those names may stick
+        other = di.DataFrame({c["name"]: ["some", "text"] for c in fp["cols"]})
+        try:
+            ppath = ctx.path("prior_read" + EXT[fmt])
+            getattr(other, "write_" + fmt)(ppath)
+            getattr(di.DataFrame, "read_" + fmt)(ppath)
+            ctx.cls("after_reading_same_named_text_columns")
+        except Exception:
+            pass
     path = ctx.path("data" + EXT[fmt] + suffix)
     writer = lambda p: getattr(data, "write_" + fmt)(p, **opts)
     ctx.call(f"write_{fmt}", writer, path)
@@ -300,7 +313,8 @@ def check(plan, ctx):
         raise Violation(f"write_{fmt} did not create the file at the given path", created=sorted(os.listdir(os.path.dirname(path))))
     _check_compression(plan, path, writer, ctx)
     ropts = {k: v for k, v in opts.items() if k in ("encoding", "sep", "header")}
-    if fmt == "json":
+    if fmt == "json" and any(kinds[cn] in ("d", "t") for cn in names):
+        # (only when needed: an omitted argument and an explicitly empty one are not the same call)
         ropts["dtypes"] = {cn: ("datetime64[D]" if kinds[cn] == "d" else "datetime64[us]")
                            for cn in names if kinds[cn] in ("d", "t")}
     back = ctx.call(f"read_{fmt}", lambda: getattr(di.DataFrame, "read_" + fmt)(path, **ropts))
